@@ -291,6 +291,14 @@ def gen_C11(rnd, n, tier):
             body = [("cmd", "before", "before"), ("switch", opnd, sw[2]), ("cmd", "after", "after")]
         cs = ctrl_case(body, [], rnd.random() < 0.5, tag=form)
         cs.meta["textleaves"] = textleaves
+        if i % 4 == 1:
+            # the statement with the AutoVar condition is the selected case of a poryswitch, as the single
+            # statement of a `key:` case or inside a `key { }` case (an AutoVar switch is TWO statements for the parser)
+            k = 1 if form == "switch" else 0
+            if rnd.random() < 0.6: wrapped = "  poryswitch(V) {\n    B: never\n    A: %s    _: other\n  }\n" % p_block([body[k]], 2).lstrip()
+            else: wrapped = "  poryswitch(V) {\n    A {\n%s    }\n    _ { other }\n  }\n" % p_block([body[k]], 3)
+            cs.src = "script S {\n%s%s%s}\n" % (p_block(body[:k], 1), wrapped, p_block(body[k + 1:], 1))
+            cs.cfg = cs.cfg.copy(switches={"V": "A"}); cs.line = compile_line(cs.cfg, cs.src)
         if i % 5 == 2:
             # constants named like the configured result variable / like nothing in the program
             pre = rnd.choice(["const VAR_RESULT = VAR_TEMP_1\n", "const VAR_TEMP_9 = VAR_RESULT\nconst VAR_RESULT = VAR_TEMP_9\n", "const UNUSED = 3\n"])
